@@ -30,6 +30,7 @@ CONSTANTS
     Modes,        \* "inline" (constants inside the system) / "named" (constants passed as parameters)
     EqTemplates,  \* equilibria for the acceptance part
     EqWrongs,
+    Laws,         \* rate-constant laws of a generated system: "mass", "arrhenius", "eyring", "alt" (cycling)
     CallKinds,    \* kinds of calls made on one solver object (see CallVar)
     MaxCalls      \* length of the call history of a solver object
 
@@ -111,24 +112,49 @@ RECURSIVE NProdOver(_, _, _)
 \* product over the substances i..4 of conc[s]^nu[s], conc given as numbers
 NProdOver(i, nu, val) == IF i > Len(Subst) THEN NOne
                          ELSE NMul(NPow(val[Subst[i]], nu[Subst[i]]), NProdOver(i + 1, nu, val))
-\* the rate of reaction rec = [rx, k] directly in SI
-RateSI(rec, conc) == NMul(SIValue(rec.k), NProdOver(1, rec.rx.reac, [s \in SubstSet |-> SIValue(conc[s])]))
+(* Rate-constant laws.  A reaction record is [rx, k] (mass action: k is the rate constant) or carries *)
+(* law and ea as well:                                                                               *)
+(*   "arrhenius":  k_eff = A * exp(-Ea/T)                     (k = A, a rate constant; ea = Ea/R in K) *)
+(*   "eyring":     k_eff = c * T * exp(-dH/T) * conc0^(1-n)   (k = c in 1/(K time); ea = dH/R in K;    *)
+(*                 conc0 = 1 mol/dm3 is the standard state the law is written for)                     *)
+(* The exponential is the only non-rational part: a rate is exported as [r, x] meaning r * exp(-x),    *)
+(* r and x exact numbers (x = ea/T is a pure number, the same in every unit system).                   *)
+LawOf(rec) == IF "law" \in DOMAIN rec THEN rec.law ELSE "mass"
+TempSI == <<310, 1>>
+EASI == <<<<620, 1>>, <<155, 1>>, <<930, 1>>, <<310, 1>>>>
+TempQ == Qty(NFromQ(TempSI), <<[n |-> "K", p |-> 1]>>)
+StdConc == Qty(NOne, <<[n |-> "molar", p |-> 1]>>)
+PerKTimeDim == VAdd(VMul(Th1, -1), VMul(T1, -1))
+\* the dimension the constant k of a record must have
+KParamDim(rec) == IF LawOf(rec) = "eyring" THEN PerKTimeDim ELSE RateDim(Order(rec.rx))
+\* the rational part of the effective rate constant, in SI
+PreSI(rec) == IF LawOf(rec) = "eyring"
+              THEN NMul(NMul(SIValue(rec.k), SIValue(TempQ)), NPow(SIValue(StdConc), 1 - Order(rec.rx)))
+              ELSE SIValue(rec.k)
+ExpoOf(rec) == IF LawOf(rec) = "mass" THEN NZero ELSE NMul(SIValue(rec.ea), NInv(SIValue(TempQ)))
+\* the rate of reaction rec directly in SI (without the factor exp(-ExpoOf(rec)))
+RateSI(rec, conc) == NMul(PreSI(rec), NProdOver(1, rec.rx.reac, [s \in SubstSet |-> SIValue(conc[s])]))
 \* the same rate through a registry
 TimeUnit(reg) == RegUnit(reg, T1)
 ConcUnit(reg) == RegUnit(reg, ConcDim)
-KIn(reg, rec) == MagInU(rec.k, RegUnit(reg, RateDim(Order(rec.rx))))
+KIn(reg, rec) == MagInU(rec.k, RegUnit(reg, KParamDim(rec)))
+TIn(reg, q) == MagInU(q, RegUnit(reg, Th1))
+PreVia(reg, rec) == IF LawOf(rec) = "eyring"
+                    THEN NMul(NMul(KIn(reg, rec), TIn(reg, TempQ)), NPow(MagInU(StdConc, RegUnit(reg, ConcDim)), 1 - Order(rec.rx)))
+                    ELSE KIn(reg, rec)
 CIn(reg, q) == MagInU(q, ConcUnit(reg))
 BackScale(reg) == VSub(ConcUnit(reg).scale, TimeUnit(reg).scale)
 RateVia(reg, rec, conc) ==
-    NShift(NMul(KIn(reg, rec), NProdOver(1, rec.rx.reac, [s \in SubstSet |-> CIn(reg, conc[s])])), BackScale(reg))
+    NShift(NMul(PreVia(reg, rec), NProdOver(1, rec.rx.reac, [s \in SubstSet |-> CIn(reg, conc[s])])), BackScale(reg))
 \* d[s]/dt as the list of its terms (coefficient, reaction rate in SI); their sum is the rate
 Terms(s) == LET js == SelectSeq([j \in 1..Len(sys) |-> j], LAMBDA j : Net(sys[j].rx, s) # 0)
-            IN  [i \in 1..Len(js) |-> [c |-> Net(sys[js[i]].rx, s), r |-> RateSI(sys[js[i]], cond.conc)]]
-AllZeroOrder == \A j \in 1..Len(sys) : Order(sys[j].rx) = 0
+            IN  [i \in 1..Len(js) |-> [c |-> Net(sys[js[i]].rx, s), r |-> RateSI(sys[js[i]], cond.conc), x |-> ExpoOf(sys[js[i]])]]
+AllMass == \A j \in 1..Len(sys) : LawOf(sys[j]) = "mass"
+AllZeroOrder == AllMass /\ \A j \in 1..Len(sys) : Order(sys[j].rx) = 0
 \* exact end state when every reaction has order zero: c0 + sum net * k * (t1 - t0), t0 = 0
-EndTerms(s) == <<[c |-> 1, r |-> SIValue(cond.conc[s])]>> \o
+EndTerms(s) == <<[c |-> 1, r |-> SIValue(cond.conc[s]), x |-> NZero]>> \o
                LET js == SelectSeq([j \in 1..Len(sys) |-> j], LAMBDA j : Net(sys[j].rx, s) # 0)
-               IN  [i \in 1..Len(js) |-> [c |-> Net(sys[js[i]].rx, s), r |-> NMul(SIValue(sys[js[i]].k), SIValue(cond.t1))]]
+               IN  [i \in 1..Len(js) |-> [c |-> Net(sys[js[i]].rx, s), r |-> NMul(SIValue(sys[js[i]].k), SIValue(cond.t1)), x |-> NZero]]
 
 ------------------------------------------------------------------------------
 UnitsIdle == stage = "build" /\ ux = <<>> /\ q0 = Qty(NZero, <<>>) /\ qs = <<>> /\ lin = NOne /\ hist = <<>>
@@ -159,10 +185,12 @@ SetSystem(name, recs) ==
     /\ conf' = [name |-> name]
     /\ kstage' = "system" /\ UNCHANGED <<cond, khist, vars>>
 
-AllAccepted == \A j \in 1..Len(sys) : AcceptsRate(Order(sys[j].rx), UnitQ(sys[j].k))
+\* (only a constant given as a plain quantity is checked when the reaction is made; a law object is not)
+RecAccepted(rec) == LawOf(rec) # "mass" \/ AcceptsRate(Order(rec.rx), UnitQ(rec.k))
+AllAccepted == \A j \in 1..Len(sys) : RecAccepted(sys[j])
 
 (* building the reactions: every constant is checked *)
-E_Build == [accept |-> [j \in 1..Len(sys) |-> AcceptsRate(Order(sys[j].rx), UnitQ(sys[j].k))]]
+E_Build == [accept |-> [j \in 1..Len(sys) |-> RecAccepted(sys[j])]]
 Build ==
     /\ kstage = "system"
     /\ KLog([op |-> "build"], E_Build)
@@ -181,32 +209,43 @@ E_PhysicalRate(reg) ==
     [ rates |-> [s \in SubstSet |-> Terms(s)],
       back |-> NOfScale(BackScale(reg)),
       kin |-> [j \in 1..Len(sys) |-> KIn(reg, sys[j])],
+      ein |-> [j \in 1..Len(sys) |-> IF LawOf(sys[j]) = "mass" THEN NZero ELSE TIn(reg, sys[j].ea)],
+      tin |-> TIn(reg, TempQ), t_unit |-> RegUnit(reg, Th1),
       cin |-> [s \in SubstSet |-> CIn(reg, cond.conc[s])],
-      p_units |-> [j \in 1..Len(sys) |-> RegUnit(reg, RateDim(Order(sys[j].rx)))],
+      p_units |-> [j \in 1..Len(sys) |-> RegUnit(reg, KParamDim(sys[j]))],
       \* evaluating, validating or solving is an observation: the constants the caller holds are still
       \* the constants as written (sys is UNCHANGED)
       kwritten |-> [j \in 1..Len(sys) |-> sys[j].k.mag] ]
 \* a system is built over the substances that take part in some reaction
-Used == { s \in SubstSet : \E j \in 1..Len(sys) : sys[j].rx.reac[s] > 0 \/ sys[j].rx.prod[s] > 0 }
+Used == { s \in SubstSet : { j \in 1..Len(sys) : sys[j].rx.reac[s] > 0 \/ sys[j].rx.prod[s] > 0 } # {} }
 \* The symbolic ODE back end needs every right-hand side to be an expression with a symbol in it: a
 \* substance whose rate is a numeric constant (only zero-order reactions with inlined constants act on
 \* it) or identically zero cannot be built, with or without units.  Such systems are outside the model.
-Buildable(mode) == \A s \in Used : \E j \in 1..Len(sys) :
-                       Net(sys[j].rx, s) # 0 /\ (mode = "inline" => Order(sys[j].rx) > 0)
+\* how reaction j gives its constants to the ODE system in a mode: "inline" (quantities inside the rate
+\* expression), "named" (unique keys, passed as parameters with every call), "subs" (unique keys, values
+\* given once as substitutions), "mixed" (odd reactions named, even ones inline)
+AllModes == {"inline", "named", "subs", "mixed"}
+IsNamed(j, mode) == mode = "named" \/ (mode = "mixed" /\ j % 2 = 1)
+\* (written with a set, not with \E: inside an action TLC would branch on every witness)
+Buildable(mode) == \A s \in Used : { j \in 1..Len(sys) :
+                       Net(sys[j].rx, s) # 0 /\ (Order(sys[j].rx) > 0 \/ IsNamed(j, mode) \/ LawOf(sys[j]) # "mass") } # {}
 PhysicalRate(reg, mode) ==
-    /\ kstage = "conditions" /\ IsReg(reg) /\ mode \in {"inline", "named"} /\ Buildable(mode)
+    /\ kstage = "conditions" /\ IsReg(reg) /\ mode \in AllModes /\ Buildable(mode)
     /\ conf' = [name |-> conf.name, reg |-> reg, mode |-> mode]
-    /\ KLog([op |-> "rates", reg |-> reg, mode |-> mode], E_PhysicalRate(reg))
+    /\ KLog([op |-> "rates", reg |-> reg, mode |-> mode, laws |-> [j \in 1..Len(sys) |-> LawOf(sys[j])],
+              temp |-> [mag |-> TempQ.mag, ux |-> TempQ.ux]], E_PhysicalRate(reg))
     /\ kstage' = "rates" /\ UNCHANGED <<sys, cond, vars>>
 
 (* output rescaling and a two-point integration with quantities in and out *)
+RECURSIVE LawTag(_)
+LawTag(j) == IF j > Len(sys) THEN "" ELSE "/" \o LawOf(sys[j]) \o LawTag(j + 1)
 E_Output(oc, ot) ==
     [ y0 |-> [s \in SubstSet |-> MagIn(cond.conc[s], oc)],
       x1 |-> MagIn(cond.t1, ot),
       cunit |-> UnitOf(oc), tunit |-> UnitOf(ot),
       exact |-> AllZeroOrder,
       yend |-> IF AllZeroOrder THEN [s \in SubstSet |-> EndTerms(s)] ELSE [s \in SubstSet |-> <<>>],
-      group |-> conf.name ]
+      group |-> conf.name \o LawTag(1) ]       \* one physical problem = one system with one assignment of laws
 Output(oc, ot) ==
     /\ kstage = "rates" /\ IsUExpr(oc) /\ IsUExpr(ot) /\ UnitOf(oc).dim = ConcDim /\ UnitOf(ot).dim = T1
     /\ KLog([op |-> "output", oc |-> oc, ot |-> ot], E_Output(oc, ot))
@@ -242,7 +281,7 @@ IsCallOp(a) == a.op \in {"solve", "validate"}
 NCalls == Cardinality({ i \in 1..Len(khist) : IsCallOp(khist[i].a) })
 
 MakeSolver(reg) ==
-    /\ kstage = "built" /\ IsReg(reg) /\ Buildable("named")
+    /\ kstage = "built" /\ IsReg(reg) /\ Buildable("named") /\ AllMass
     /\ conf' = [name |-> conf.name, reg |-> reg, mode |-> "solver"]
     /\ KLog([op |-> "solver", reg |-> reg], [ok |-> TRUE])
     /\ kstage' = "solver" /\ UNCHANGED <<sys, cond, vars>>
@@ -264,21 +303,29 @@ Cyc(seq, i) == seq[((i - 1) % Len(seq)) + 1]
 TimeSeq == <<"s", "min", "h", "ms">>
 Idx(seq, x) == CHOOSE i \in 1..Len(seq) : seq[i] = x
 \* reaction j takes the (j-1)-th successor of the chosen units, so that constants of one system differ
+LawSeq == <<"mass", "arrhenius", "eyring">>
+LawFor(plan, j) == IF plan = "alt" THEN Cyc(LawSeq, j) ELSE plan
 KuxFor(name, tn, cn, wrong) ==
     [j \in 1..Len(SysLib[name]) |->
         LET order == Order(RxLib[SysLib[name][j]])
             t == Cyc(TimeSeq, Idx(TimeSeq, tn) + j - 1)
             c == Cyc(ConcKeys, Idx(ConcKeys, cn) + j - 1)
         IN  IF j = 1 THEN WrongUx(wrong, order, c, t) ELSE RateUx(order, c, t)]
+KuxLaw(name, tn, cn, wrong, plan) ==
+    [j \in 1..Len(SysLib[name]) |->
+        IF LawFor(plan, j) = "eyring" THEN <<F("K", -1), F(Cyc(TimeSeq, Idx(TimeSeq, tn) + j - 1), -1)>>
+        ELSE KuxFor(name, tn, cn, wrong)[j]]
 CuxFor(plan) == [s \in SubstSet |-> ConcUx[Cyc(ConcKeys, plan + Idx(Subst, s))]]
 
 GenRateAccept == \E tpl \in DOMAIN RxLib, tn \in KTimes, cn \in KConcs, w \in Wrongs :
                      "accept" \in Modes /\ RateAccept(RxLib[tpl], WrongUx(w, Order(RxLib[tpl]), cn, tn))
 GenKAccept == \E tpl \in EqTemplates, cn \in KConcs, w \in EqWrongs :
                      "accept" \in Modes /\ KAccept(RxLib[tpl], WrongKUx(w, DNu(RxLib[tpl]), cn))
-GenSetSystem == \E name \in Systems, tn \in KTimes, cn \in KConcs, w \in (Wrongs \cap {"none", "conc-", "time2"}) :
+GenSetSystem == \E name \in Systems, tn \in KTimes, cn \in KConcs, w \in (Wrongs \cap {"none", "conc-", "time2"}), plan \in Laws :
+                     (w # "none" => plan = "mass") /\
                      SetSystem(name, [j \in 1..Len(SysLib[name]) |->
-                                        [rx |-> RxLib[SysLib[name][j]], k |-> Written(KSI[j], KuxFor(name, tn, cn, w)[j])]])
+                                        [rx |-> RxLib[SysLib[name][j]], k |-> Written(KSI[j], KuxLaw(name, tn, cn, w, plan)[j]),
+                                         law |-> LawFor(plan, j), ea |-> Written(EASI[j], <<F("K", 1)>>)]])
 GenSetConditions == \E plan \in CPlans, tn \in TUnits :
                      (Modes \ {"accept", "solver"}) # {} /\ SetConditions([s \in SubstSet |-> Written(CSI[s], CuxFor(plan)[s])],
                                    Written(<<0, 1>>, <<F(tn, 1)>>), Written(T1SI, <<F(tn, 1)>>))
@@ -349,8 +396,10 @@ KClass == IF khist = <<>> THEN "none"
           ELSE IF khist[1].a.op = "k_accept" THEN "keq-" \o (IF khist[1].e.must_raise THEN "bad" ELSE "ok")
           ELSE IF ~AllAccepted THEN "build-refused"
           ELSE IF conf.mode = "solver" THEN "solver-" \o conf.name \o CallClass(1)
-          ELSE conf.name \o "-" \o conf.mode
-SysOut == [j \in 1..Len(sys) |-> [rx |-> sys[j].rx, k |-> [mag |-> sys[j].k.mag, ux |-> sys[j].k.ux], name |-> "k" \o ToString(j)]]
+          ELSE conf.name \o "-" \o conf.mode \o (IF AllMass THEN "" ELSE "-law")
+SysOut == [j \in 1..Len(sys) |-> [rx |-> sys[j].rx, k |-> [mag |-> sys[j].k.mag, ux |-> sys[j].k.ux], name |-> "k" \o ToString(j),
+                                   law |-> LawOf(sys[j]), ename |-> "e" \o ToString(j),
+                                   ea |-> IF LawOf(sys[j]) = "mass" THEN [none |-> TRUE] ELSE [mag |-> sys[j].ea.mag, ux |-> sys[j].ea.ux]]]
 CondOut == IF "conc" \in DOMAIN cond
            THEN [conc |-> [s \in SubstSet |-> [mag |-> cond.conc[s].mag, ux |-> cond.conc[s].ux]],
                  t0 |-> [mag |-> cond.t0.mag, ux |-> cond.t0.ux], t1 |-> [mag |-> cond.t1.mag, ux |-> cond.t1.ux]]
